@@ -84,7 +84,12 @@ fn instances(thorough: bool) -> Vec<Inst> {
         for which in 0..4usize {
             reg!(l, "C14", c14_apply_post_image, "apply_post, contains", false, false, [[3, 2, which], [3, 3, which]]);
         }
-        reg!(l, "C14", c14_hypercube, "hypercube, contains", false, false, [[4]]);
+        reg!(l, "C14", c14_hypercube, "hypercube, contains", false, false, [[4], [5]]);
+        reg!(l, "C14", c14_intersection, "intersection, contains", false, false, [[3, 3, 3], [4, 2, 3], [2, 4, 4]]);
+        reg!(l, "C14", c14_translate, "translate, contains", false, false, [[4, 4], [5, 3]]);
+        reg!(l, "C14", c14_apply_pre, "apply_pre, apply, contains", false, false, [[3, 3, 3], [4, 3, 2], [2, 4, 4]]);
+        reg!(l, "C14", c14_unbounded_empty, "unbounded, empty, contains", false, false, [[4], [5]]);
+        reg!(l, "C14", c14_simplex, "simplex, distance_raw, contains", false, false, [[5], [6]]);
         reg!(l, "C14", c14_cross_polytope, "cross_polytope, contains", false, false, [[4]]);
         reg!(l, "C14", c14_from_normal, "from_normal, contains", false, false, [[3, 3], [4, 2]]);
         reg!(l, "C14", c14_distance, "distance, distance_raw", false, false, [[3, 3], [4, 2]]);
@@ -153,7 +158,19 @@ fn instances(thorough: bool) -> Vec<Inst> {
     }
     reg!(l, "C16", c16_chebyshev_structure, "chebyshev_center", true, false, [[1, 1], [2, 2]]);
     if t {
-        reg!(l, "C16", c16_compose, "compose, apply", false, false, [[3, 3, 3], [3, 2, 3]]);
+        reg!(l, "C16", c16_compose, "compose, apply", false, false, [[3, 3, 3], [3, 2, 3], [4, 4, 4], [2, 4, 3]]);
+        reg!(l, "C16", c16_stack, "stack, apply", false, false, [[3, 3, 4], [4, 2, 4]]);
+        reg!(l, "C16", c16_apply, "apply, apply_transpose", false, false, [[4, 4], [4, 3]]);
+        reg!(l, "C16", c16_rows, "row, row_iter, from_row_iter, view, to_owned, as_polytope, as_function, new", false, false, [[4, 3], [4, 4]]);
+        for mask in 0..16usize {
+            reg!(l, "C16", c16_remove_rows_fn, "remove_rows", false, false, [[4, 3, mask]]);
+            reg!(l, "C15", c15_remove_rows, "remove_rows, from_row_iter", false, false, [[4, 3, mask]]);
+        }
+        for n in 4..=4usize {
+            for pat in 0..(1usize << n) {
+                reg!(l, "C16", c16_slice, "slice", false, false, [[n, pat]]);
+            }
+        }
         reg!(l, "C16", c16_stack, "stack, apply", false, false, [[3, 2, 3]]);
         reg!(l, "C16", c16_apply, "apply, apply_transpose", false, false, [[3, 3]]);
         for op in 0..5usize {
